@@ -11,8 +11,10 @@
 //! draw of the set, so the decision matrix (stake × draw) carries the stake-ascending and
 //! draw-descending chains of the property.
 //!
-//! Oracle: `mc_ref::lottery` (interval arithmetic, proven brackets) outside the band 2^-44; the
-//! monotonicity clauses are evaluated on the implementation's own decisions.
+//! Oracle: `mc_ref::lottery` (interval arithmetic, proven brackets) outside the band (2^-44 for a
+//! party with all the stake, proportionally narrower for smaller stakes, see [`band_log2`]); zero
+//! stake ⇒ lost and phi_f = 1 ⇒ won unconditionally; the monotonicity clauses are evaluated on the
+//! implementation's own decisions; signer's index set = indices the verifier accepts one by one.
 
 use crate::eligibility::is_lottery_won;
 use mc_core::{Ctx, Report, catch, par_map};
